@@ -17,6 +17,36 @@ CHECKS = {
    "Every lookup of the real route table is compared with an independent reference (exact > any matching wildcard > default > none) and all repeats on one table must agree; exhaustive within the stated table/host universe, random beyond.",
    "Where several wildcard entries match, any of them is accepted (the property fixes no order among them) but the answer must be stable.",
    "5 C18"),
+ "C01": ("wire", "exploration",
+   "offline transparency checker over recorded wire executions of the real -race binary (input vs. relayed bytes read by an independent SIP reader), sentinel barriers, identity-attributed observations",
+   "Generated requests/responses with hostile header content and bodies are sent through the real binary on all four relaying paths x UDP/TCP ingress x UDP/TCP egress x 16 listener configurations; every relayed message must equal its input outside Via/Route/Record-Route/Content-Length and carry exactly one correct Content-Length.",
+   "A message that is not relayed is no observation for C01; a path on which fewer than the stated number of relays was seen fails the run as 'observed nothing'.",
+   "5 C01"),
+ "C02": ("wire", "exploration",
+   "Via-pop reference model checked against recorded wire executions (responses with generated Via chains; drops decided behind a sentinel barrier), plus request/response round trips through backends",
+   "Single responses with 1-6 Via entries in every layout, supported/unsupported transports, received/rport variants must go exactly where the model says (or nowhere) with the remaining Via entries byte-identical; round trips must return to the socket/connection the request came from with the Via stack the hop sent.",
+   "Destinations where the driver has no socket are unobservable and treated as 'nothing may be seen anywhere'.",
+   "5 C02"),
+ "C03": ("wire", "exploration",
+   "routing reference model (Route > static route > service backend > drop) checked against recorded wire executions over the full decision table; absence decided behind sentinel barriers plus end-of-run identity sweep",
+   "Every cell of {Route shape} x {To host} x {Request-URI kind} x {keep-next-hop} x {next-hop transport} x {UDP,TCP ingress} is instantiated with generated URIs on 16 services of the real binary; each request must be seen exactly once at the model's socket and nowhere else.",
+   "Sockets observe only where the driver listens (every hop, backend, UA and sentinel address of the run's address plan).",
+   "5 C03"),
+ "C06": ("wire", "exploration",
+   "learned-route reference model (what each service has learned through which listener transport) + expected Via / Record-Route lists checked against recorded wire executions; run-wide branch-uniqueness monitor",
+   "Requests with 0-6 Via and 0-4 Record-Route entries in every layout and header position on the three request paths; the relayed Via list must be [new]+incoming (backend path, learned hop) or incoming (not learned), the new entry must name a transport of the receiving listener with a fresh z9hG4bK branch, Record-Route must follow policy.",
+   "Where learning happened only through the message being routed, or only under the other spelling (name vs. IP) of the hop, either outcome is accepted.",
+   "5 C06"),
+ "C07": ("wire", "exploration",
+   "driver-side ground truth (true IP/port of every sending socket) checked against what backends receive and where responses arrive, with decoy sockets at every address a misrouted response could reach",
+   "Round trips from sources whose top Via lies about host and port, rport absent/valueless/spoofed x received absent/spoofed x no-received omitted/false/true x UDP / TCP / connections opened by the proxy itself (TCP next hop, TCP backend).",
+   "TCP responses are judged by the connection they arrive on.",
+   "5 C07"),
+ "C13": ("wire", "exploration",
+   "expected-Route-remainder model checked against recorded wire executions of the C03 decision table (own entry by address / alias / alias without port / near misses; keep-next-hop on/off)",
+   "The relayed Route list must equal the model's remainder byte for byte and the destination must follow from consuming exactly the own entry; only cases that carry a Route header are judged (a precedence bug elsewhere does not alarm C13).",
+   "Entries contain no ',' inside <> (recorded known finding of C14).",
+   "5 C13"),
  "C05": ("inpkg", "exploration",
    "epoch/window rotation monitor over exhaustively enumerated add/remove/dispatch sequences; porcupine linearizability check of recorded concurrent histories against a membership model; race detector",
    "Drives the real round-robin structure with recording backend doubles: every sequence up to length 5 (quick) / 7 (thorough) over 4 addresses plus random long ones under a strict-rotation monitor, and concurrent histories (dispatches parked inside Send while members are removed) checked by porcupine.",
